@@ -14,7 +14,10 @@ RULE = (
     "property reads between operations. After every operation the full observable snapshots (scalars and every history series of every node) must be bit-identical, a property read on "
     "the stale tree A must equal the same read on B after an explicit update, all rows of earlier dates must never change once the clock has moved, and no series accessor may extend "
     "beyond the current date. noisy_backtest: a grammar backtest run twice, once with a noise algo (redundant updates + reads) inserted at generated stack positions: histories bit-identical. "
-    "non-trivial = at least one redundant update/read placed between a mutation and the next date change (twin) / noise executed on a date with trades (backtest). distinct = distinct spec hashes."
+    "frozen: histories whose operations are issued in deferred form (update=False, update_self=False) with generated placements of the closing update, including none before the clock "
+    "moves (outside the lazy-update protocol; only the append-only clause is judged there): the rows of earlier dates, read from the arrays behind the series so that looking refreshes nothing, "
+    "must still be what they were when the clock moved past them. "
+    "non-trivial = at least one redundant update/read placed between a mutation and the next date change (twin) / noise executed on a date with trades (backtest) / the clock moved at least once while a change was pending (frozen). distinct = distinct spec hashes."
 )
 ASSUMPTIONS = ["noise is placed between operations issued with default update flags (never inside an update=False batch)"]
 BUILDS = {"quick": ["py"], "thorough": ["py", "cy"]}
@@ -299,10 +302,114 @@ def noisy_spec(draw):
     return spec
 
 
-SUBS = {"twin": case_twin, "noisy_backtest": case_noisy_backtest}
-STRATS = {"twin": twin_spec, "noisy_backtest": noisy_spec}
+# ---- append-only rows under deferred operations -----------------------------------------
+RAW_STRAT = ["_prices", "_values", "_notl_values", "_cash", "_fees", "_all_flows", "_bidoffers_paid"]
+RAW_SEC = ["_prices", "_values", "_notl_values", "_positions", "_outlays", "_bidoffers_paid", "_coupon_income", "_holding_costs"]
+
+
+def raw_rows(bt, root, n_rows):
+    """the first n_rows rows of every recorded series of every node, read from the arrays behind the series (no property is touched,
+    so nothing is refreshed by looking)"""
+    out = {}
+    for m in root.members:
+        for nm in RAW_STRAT if isinstance(m, bt.core.StrategyBase) else RAW_SEC:
+            ser = getattr(m, nm, None)
+            if ser is None or not hasattr(ser, "array"):
+                continue
+            arr = np.asarray(ser.array, dtype=float)[:n_rows]
+            out[(m.full_name, nm[1:])] = [None if math.isnan(x) else float(x) for x in arr]
+    return out
+
+
+def case_frozen(ctx, spec):
+    """History with operations issued in deferred form (update=False / update_self=False) and generated placements of the closing
+    update - including none at all before the clock moves. Only the append-only clause is judged: what the rows of dates before the
+    current one contained when the clock moved is what they contain for ever."""
+    bt = ctx.bt
+    try:
+        run = machine.TreeRun(bt, spec)
+    except ZeroDivisionError:
+        raise Discard("zero base")
+    defer = spec["defer"]
+    settle = spec["settle"]
+    reads = spec.get("reads") or [None]
+    frozen = {}
+    n_pending_moves = 0
+    labs = set(machine.history_labels(spec, None))
+    pending = False
+    try:
+        for k, op in enumerate(spec["ops"]):
+            tag = "op#%d %s" % (k, op)
+            run.defer = bool(defer[k % len(defer)]) and op[0] not in ("next", "update", "spawn")
+            before = None
+            if op[0] == "next":
+                before = raw_rows(bt, run.root, run.i + 1)  # rows up to and including the current date (hand-driven trees have no synthetic row)
+            ok = run.step(op)
+            if not ok:
+                continue
+            run.expect = None  # sizes computed from a deliberately stale tree are not the model's business here
+            run.apply_trades_to_model()
+            if run.root.bankrupt:
+                raise Discard("bankrupt")
+            if op[0] == "next":
+                if pending:
+                    n_pending_moves += 1
+                    labs.add("clock_moved_with_pending_change")
+                pending = False
+                for key, col in before.items():
+                    for j, v in enumerate(col):
+                        frozen.setdefault((key, j), v)
+            elif op[0] != "update":
+                if run.defer:
+                    labs.add("deferred_op")
+                if settle[k % len(settle)]:
+                    run.root.update(run.now())
+                else:
+                    pending = True
+            else:
+                pending = False
+            rd = reads[k % len(reads)]
+            if rd is not None:
+                do_read(bt, run, rd[1], rd[0])
+                labs.add("read")
+            cur = raw_rows(bt, run.root, run.i)  # rows of dates strictly before the current one
+            for key, col in cur.items():
+                for j, v in enumerate(col):
+                    old = frozen.get((key, j), v)
+                    if old != v and not (old is None and v is None):
+                        raise Violation("%s: row #%d of %s.%s was %r when the clock moved past it and is %r now (current date is row #%d)" % (tag, j, key[0], key[1], old, v, run.i), signature="past-changed-deferred:" + key[1])
+    except ZeroDivisionError:
+        raise Discard("zero base")
+    except (Violation, Discard):
+        raise
+    except Exception as e:
+        # protocol misuse may legitimately end in an error (e.g. a position left without a price); only silent rewriting is judged here
+        raise Discard("history raised %s" % type(e).__name__)
+    return {"nontrivial": n_pending_moves > 0, "labels": sorted(labs)}
+
+
+@st.composite
+def frozen_spec(draw):
+    spec = draw(machine.history_spec(min_ops=6, max_ops=28))
+    n = len(spec["ops"])
+    spec["defer"] = draw(st.lists(st.booleans(), min_size=1, max_size=n))
+    spec["settle"] = draw(st.lists(st.sampled_from([True, False, False]), min_size=1, max_size=n))
+    paths = []
+    for p_, kids in machine.strategy_paths(spec["tree"]):
+        paths.append(p_)
+        for c, isst in kids.items():
+            if not isst:
+                paths.append(p_ + ">" + c)
+    rd = st.one_of(st.none(), st.none(), st.tuples(st.sampled_from(paths), st.sampled_from(["value", "weight", "price", "positions", "values", "outlays", "cash", "fees"])))
+    spec["reads"] = [None if x is None else list(x) for x in draw(st.lists(rd, min_size=1, max_size=8))]
+    return spec
+
+
+SUBS = {"twin": case_twin, "noisy_backtest": case_noisy_backtest, "frozen": case_frozen}
+STRATS = {"twin": twin_spec, "noisy_backtest": noisy_spec, "frozen": frozen_spec}
 
 
 def shard(ctx):
     run_sub(ctx, "twin", twin_spec(), lambda s: case_twin(ctx, s), ctx.n(1200, 25000))
     run_sub(ctx, "noisy_backtest", noisy_spec(), lambda s: case_noisy_backtest(ctx, s), ctx.n(320, 6000))
+    run_sub(ctx, "frozen", frozen_spec(), lambda s: case_frozen(ctx, s), ctx.n(1200, 25000))
